@@ -133,7 +133,102 @@ def gen(tier, rng):
         cases.append({"key": key, "stratum": fam, "fam": fam, "shape": shape, "tabs": tabs, "hist": hist, "branches": branches,
                       "nontrivial": any(h[0] == "slice" and any(isinstance(i, int) for i in h[1]) for h in hist),
                       "show": {"wcs": fam, "shape": shape, "extra_coords": tabs, "history": hist, "then_slice_earlier_cubes": branches}})
+    # WCS-backed extra coords (a second FITS WCS of the cube's dimensionality, any permutation as mapping): the
+    # coordinates of its dimensions dropped by integer slicing must show up as global coords, and keep doing so
+    for _ in range(200 if tier == "quick" else 3000):
+        nd = rng.choice([2, 3, 3])
+        shape = [rng.choice([3, 4, 5]) for _ in range(nd)]
+        mapping = list(range(nd))
+        if rng.random() < 0.6:
+            rng.shuffle(mapping)
+        chain, cur = [], list(shape)
+        for _d in range(rng.choice([1, 2, 2])):
+            if len(cur) < 2:
+                break
+            its = []
+            for sz in cur:
+                if rng.random() < 0.4:
+                    its.append(rng.choice([0, sz - 1, -1, -sz, sz // 2]))
+                else:
+                    a = rng.choice([None, 0, 1, -1])
+                    its.append(["s", a, rng.choice([None, sz, sz + 1]), None])
+            if all(isinstance(i, int) for i in its):
+                its[rng.randrange(len(its))] = ["s", None, None, None]
+            new = [len(range(sz)[slice(it[1], it[2])]) for sz, it in zip(cur, its) if not isinstance(it, int)]
+            if 0 in new:
+                break
+            chain.append(its)
+            cur = new
+        if chain:
+            cases.append({"key": f"wcsec|{shape}|{mapping}|{chain}", "stratum": "wcs-backed-extra", "fam": "wcsec", "shape": shape, "tabs": [],
+                          "hist": [], "branches": [], "ecmap": mapping, "chain": chain, "nontrivial": True,
+                          "show": {"shape": shape, "extra_coords": "WCS-backed", "mapping": mapping, "slices": chain}})
     return cases
+
+
+def _run_wcsec(case):
+    from astropy.wcs import WCS
+    from ndcube import NDCube, ExtraCoords
+    import astropy.units as u
+    shape = tuple(case["shape"])
+    nd = len(shape)
+    cube = NDCube(np.arange(int(np.prod(shape))).reshape(shape), wcs=lin3(nd))
+    mapping = case["ecmap"]
+    w = WCS(naxis=nd)
+    ct, cu = ["VOPT", "VRAD", "ZOPT"][:nd], ["m/s", "m/s", ""][:nd]      # physical types the primary WCS does not use
+    cdelt, crval = [10.0, 100.0, 1000.0][:nd], [5.0, 50.0, 500.0][:nd]
+    w.wcs.ctype, w.wcs.cunit, w.wcs.cdelt, w.wcs.crpix, w.wcs.crval = ct, cu, cdelt, [1] * nd, crval
+    w.wcs.set()
+    ptypes = list(w.world_axis_physical_types)
+    ec = ExtraCoords(ndcube=cube)
+    ec.wcs = w
+    ec.mapping = tuple(mapping)
+    cube._extra_coords = ec
+    why = []
+    try:
+        cur = cube
+        alive = list(range(nd))                    # original array axes still present
+        offs = {a: 0 for a in range(nd)}
+        fixed = {}
+        lens = {a: shape[a] for a in range(nd)}
+        for its in case["chain"]:
+            items = Q.dec_items(its)
+            cur = cur[Q.np_ints(case["key"], items)]
+            new_alive = []
+            for a, it in zip(alive, items):
+                n = lens[a]
+                if isinstance(it, int):
+                    fixed[a] = offs[a] + (it + n if it < 0 else it)
+                else:
+                    st, en, _ = it.indices(n)
+                    offs[a] += st
+                    lens[a] = max(0, en - st)
+                    new_alive.append(a)
+            alive = new_alive
+            for ask in (1, 2):                    # the same question twice
+                gc = cur.global_coords
+                names = list(gc.keys())
+                for j, m in enumerate(mapping):
+                    a = nd - 1 - m                 # cube array axis of extra pixel dimension j
+                    if a in fixed:
+                        exp = crval[j] + cdelt[j] * fixed[a]
+                        if ptypes[j] not in names:
+                            why.append(f"after {its} (look {ask}): the extra coordinate {ptypes[j]} of the dropped axis {a} is not among the global coords {names}")
+                            break
+                        got = float(np.asarray(getattr(gc[ptypes[j]], "value", gc[ptypes[j]])))
+                        if abs(got - exp) > 1e-9 * max(1.0, abs(exp)):
+                            why.append(f"after {its}: global coordinate {ptypes[j]} is {got!r}, the element that was kept has {exp!r}")
+                            break
+                    elif ptypes[j] in names:
+                        why.append(f"after {its}: {ptypes[j]} is listed as global although its axis {a} is still there")
+                        break
+                if why:
+                    break
+            if why:
+                break
+    except Exception as e:  # noqa
+        why.append(f"WCS-backed extra coords: {exc_name(e)}: {str(e)[:100]}")
+    return {"out": {"raised": [], "internal": [], "wcs": [], "ec": []}, "oracle": {"ok": not why, "why": "; ".join(why), "finding": None}}
 
 
 def build(case):
@@ -194,6 +289,8 @@ def _num(obj, want_unit=None):
 
 def run(case):
     import astropy.units as u
+    if case["fam"] == "wcsec":
+        return _run_wcsec(case)
     cube = build(case)
     parent = cube
     nd0 = len(case["shape"])
